@@ -16,7 +16,7 @@ const maxInlineDepth = 10
 
 func isSpecHelper(f *types.Func) bool {
 	switch f.Name() {
-	case "old", "forallInt", "existsInt", "forallReal", "existsReal", "implies", "assert", "assume", "iff", "fresh", "memEq", "lemmaUse", "wfd", "bnd", "sameSlice", "iterStart", "allocd", "ghostRank", "rangeIndex", "inPlace", "same":
+	case "old", "forallInt", "existsInt", "forallReal", "existsReal", "implies", "assert", "assume", "iff", "fresh", "memEq", "lemmaUse", "wfd", "bnd", "sameSlice", "sameSlice16", "iterStart", "allocd", "ghostRank", "rangeIndex", "inPlace", "same":
 		return f.Pkg() != nil && strings.Contains(f.Pkg().Path(), "tdewolff/canvas")
 	}
 	return false
@@ -579,6 +579,9 @@ func (x *Exec) callFunc(s *State, fn *types.Func, call *ast.CallExpr) []*Term {
 	// unknown or too deep: havoc
 	if fi == nil {
 		x.abstract("external call " + fn.FullName())
+		if fn.Pkg() != nil && pureExternalPkgs[fn.Pkg().Path()] {
+			return x.havocResults(s, call)
+		}
 	} else {
 		x.abstract("call not inlined (depth/recursion) " + fn.FullName())
 	}
@@ -948,7 +951,7 @@ func (x *Exec) callModular(s *State, fi *FuncInfo, ct *Contract, recv *Term, arg
 	// results
 	var vals []*Term
 	pureVals := ct.HasAssign && len(ct.Assigns) == 0
-	withEpoch := pureVals && !valueOnly(sig)
+	withEpoch := pureVals && !valueOnly(sig) && !ct.Pure
 	for i := 0; i < sig.Results().Len(); i++ {
 		rt := sig.Results().At(i).Type()
 		if pureVals {
@@ -1245,7 +1248,7 @@ func (x *Exec) callSpecHelper(s *State, fn *types.Func, call *ast.CallExpr) []*T
 			return []*Term{And(Cmp("<=", IntLit(0), Field(v, 0)), Cmp("<", Field(v, 0), x.heapGet(s, "$balloc", SInt)))}
 		}
 		return []*Term{And(Cmp("<=", IntLit(0), v), Cmp("<", v, x.heapGet(s, "$alloc", SInt)))}
-	case "sameSlice":
+	case "sameSlice", "sameSlice16":
 		return []*Term{Eq(x.eval(s, call.Args[0]), x.eval(s, call.Args[1]))}
 	case "wfd":
 		return []*Term{x.specWfd(s, call)}
@@ -1312,4 +1315,10 @@ func valueOnly(sig *types.Signature) bool {
 // inTopClause: evaluating a clause of the function under verification (not of a callee)
 func (x *Exec) inTopClause() bool {
 	return len(x.oldStates) > 0 && x.oldStates[len(x.oldStates)-1] == x.frames[0].entry
+}
+
+// external packages whose functions do not write memory reachable from the verified code (assumed)
+var pureExternalPkgs = map[string]bool{
+	"time": true, "unicode/utf16": true, "unicode/utf8": true, "unicode": true, "strings": true, "strconv": true,
+	"math": true, "math/bits": true, "errors": true, "path/filepath": true, "image/color": true,
 }
